@@ -212,3 +212,40 @@ fn c19_println_with_overflowing_bar_keeps_lines_apart() {
     let s = term.contents();
     assert!(s.starts_with("log1\nlog2"), "{s:?}");
 }
+
+fn render_one(template: &str, msg: &str) -> String {
+    let term = InMemoryTerm::new(10, 80);
+    let pb = bar(&term, template);
+    pb.set_message(msg.to_string());
+    term.contents()
+}
+
+/// C10 (F9): a width beyond u16::MAX must be an error, not a panic.
+#[test]
+fn c10_width_overflow_is_an_error() {
+    assert!(ProgressStyle::with_template("{pos:65536}").is_err());
+    assert!(ProgressStyle::with_template("{pos:65535}").is_ok());
+}
+
+/// C10 (F10): literal text before `{`+whitespace keeps its place.
+#[test]
+fn c10_literal_before_brace_whitespace() {
+    assert_eq!(render_one("ab{ cd {pos} }}", ""), "ab{ cd 0 }");
+}
+
+/// C12 (F11): truncation counts columns, not bytes.
+#[test]
+fn c12_truncation_by_columns() {
+    assert_eq!(render_one("|{msg:5!}|", "héllo wörld"), "|héllo|");
+    assert_eq!(render_one("|{msg:>5!}|", "héllo wörld"), "|wörld|");
+    assert_eq!(render_one("|{msg:4!}|", "日本語テキスト"), "|日本|");
+}
+
+/// C15 (F14): rounding at precision 0 and negative values.
+#[test]
+fn c15_human_float_count() {
+    use indicatif::HumanFloatCount;
+    assert_eq!(format!("{:.0}", HumanFloatCount(1234.9)), "1,235");
+    assert_eq!(format!("{}", HumanFloatCount(-123456.0)), "-123,456");
+    assert_eq!(format!("{}", HumanFloatCount(-999.9995)), "-999.9995");
+}
